@@ -838,6 +838,7 @@ func main() {
 	e.dishonest(v, e.N(120, 1500))
 	e.malformed(v, e.N(60, 600))
 	e.cacheHistories(e.N(6, 60))
+	e.cacheIdentityHistories(e.N(8, 80))
 	e.Finish()
 }
 
@@ -1048,6 +1049,104 @@ func (e *env) cacheHistories(count int) {
 				e.Violate("C24/cache-rejects-signed", "with Verifier.Cache set, a properly signed segment is rejected", d)
 				break
 			}
+		}
+	}
+}
+
+// cacheIdentityHistories: with Verifier.Cache set, the cache is warmed by an honest entry of AS Y;
+// then an entry that claims ISD-AS X (signed body and key id) but is signed with Y's key and names
+// Y's subject key id must still be rejected (no certificate for (X, skid(Y)) exists). Shapes per
+// history (h%4): 0 warm-up segment then forged segment; 1 Y's honest entry earlier in the SAME
+// segment as the forged entry; 2 forged, honest, forged again (symmetric order); 3 cold cache control.
+func (e *env) cacheIdentityHistories(count int) {
+	r := e.r
+	for h := 0; h < count; h++ {
+		vc := compat.Verifier{Verifier: trust.Verifier{Engine: provider{e.w.db}, Cache: cache.New(time.Minute, time.Minute)}}
+		var hist []map[string]any
+		ts := int64(t0 + r.Intn(1800))
+		shape := h % 4
+		// the forged segment: entry i claims X = specs[i].ia, signed by Y
+		n := 2 + r.Intn(4)
+		specs := e.honestSpecs(n, ts)
+		for k := range specs {
+			c := e.w.pick(specs[k].ia, "main")
+			specs[k].ck, specs[k].kidSK = c, c.skid
+		}
+		i := 1 + r.Intn(n-1)
+		x := specs[i].ia
+		y := specs[0].ia // shape 1: Y is an honest earlier entry of the same segment
+		if shape != 1 {
+			for y = e.w.ases[r.Intn(len(e.w.ases))]; y == x; {
+				y = e.w.ases[r.Intn(len(e.w.ases))]
+			}
+			for k := range specs { // keep Y out of the forged segment
+				if specs[k].ia == y && k != i {
+					for _, cand := range e.w.ases {
+						used := cand == y || cand == x
+						for _, sp := range specs {
+							used = used || sp.ia == cand
+						}
+						if !used {
+							c := e.w.pick(cand, "main")
+							specs[k] = entrySpec{ia: cand, exp: specs[k].exp, ck: c, kidIA: cand, kidSK: c.skid, honest: true}
+							break
+						}
+					}
+				}
+			}
+		}
+		cky := e.w.pick(y, "main")
+		specs[i] = entrySpec{ia: x, exp: specs[i].exp, ck: cky, kidIA: x, kidSK: cky.skid}
+		forged := func() *cppb.PathSegment {
+			return seg.PathSegmentToPB(e.w.build(r, ts, uint16(r.Intn(65536)), specs, false))
+		}
+		warm := func() *cppb.PathSegment {
+			ws := e.honestSpecs(1+r.Intn(3), ts)
+			c := e.w.pick(y, "main")
+			ws[0] = entrySpec{ia: y, exp: 63, ck: c, kidIA: y, kidSK: c.skid, honest: true}
+			for k := 1; k < len(ws); k++ {
+				if ws[k].ia == y {
+					ws = ws[:k]
+					break
+				}
+				c := e.w.pick(ws[k].ia, "main")
+				ws[k].ck, ws[k].kidSK = c, c.skid
+			}
+			return seg.PathSegmentToPB(e.w.build(r, ts, uint16(r.Intn(65536)), ws, false))
+		}
+		step := func(what string, pb *cppb.PathSegment) bool {
+			hist = append(hist, map[string]any{"step": len(hist), "what": what, "claimed_as": x.String(), "signing_as": y.String(),
+				"forged_entry": i, "entries": len(pb.AsEntries), "segment_ts": ts})
+			f := e.w.facts(pb)
+			o, ans := e.verify(pb, vc)
+			e.Op(f.op, ans, fmt.Sprintf("cache-id/%d/%s", shape, what))
+			holds, _ := e.w.stmt(f)
+			if o.ok && !holds {
+				d := e.replay("cache-identity-history", what, pb, nil, f, ans)
+				d["history"] = hist
+				e.Violate("C24/cache-accepts-other-as-key",
+					"with Verifier.Cache set, an entry claiming ISD-AS "+x.String()+" but signed with the key of "+y.String()+
+						" (key id: "+x.String()+" + subject key id of "+y.String()+"'s certificate) verifies after an honest entry of "+
+						y.String()+" was verified: the cached chain is not bound to the ISD-AS of the query", d)
+				return false
+			}
+			if !o.ok && holds {
+				d := e.replay("cache-identity-history", what, pb, nil, f, ans)
+				d["history"] = hist
+				e.Violate("C24/cache-rejects-signed", "with Verifier.Cache set, a properly signed segment is rejected", d)
+				return false
+			}
+			return true
+		}
+		switch shape {
+		case 0:
+			_ = step("warm-up", warm()) && step("forged", forged())
+		case 1:
+			step("forged-after-honest-entry-in-same-segment", forged())
+		case 2:
+			_ = step("forged-cold", forged()) && step("warm-up", warm()) && step("forged", forged())
+		case 3:
+			step("forged-cold", forged())
 		}
 	}
 }
